@@ -20,9 +20,12 @@ def build(tier, seed):
     for j in C11.build(tier, seed)['jobs']:
         if 'othersame' in j.name:
             j.name = j.name.replace('C11/', 'C19/copy_detection/'); J.append(j)
+    # in-sync verification of inherited hashes: one stripe of the real state_sync_process with copy-detected (REP) blocks
+    import syncstep
+    J += syncstep.jobs('C19', tier)
     import C10_info
-    J += [j for j in C10_info.record_jobs('C19', tier) if '/f/blocks2-run1/hash16' in j.name]
+    J += [j for j in C10_info.record_jobs('C19', tier) if '/f/blocks2-run1-firstp/hash16' in j.name]
     return dict(jobs=J, bounds={'block': 64, 'disks': 2},
-        assumptions=['memhash = injective uninterpreted function (keyed by kind and seed)', 'hash table lookup replaced by the real compare callback on one candidate', 'state_sync protocol with recorder callees'],
+        assumptions=syncstep.ASSUMPTIONS + ['memhash = injective uninterpreted function (keyed by kind and seed)', 'hash table lookup replaced by the real compare callback on one candidate', 'state_sync protocol with recorder callees'],
         trusted=['cbmc 6.11.0', 'kissat', 'stubs'],
-        outside=['the in-sync verification of inherited hashes (state_sync_process): the stripe-level harness does not finish (DESIGN.md)', 'directory import walking', '--force-nocopy handling while loading'])
+        outside=['directory import walking', '--force-nocopy handling while loading'])
